@@ -9,19 +9,24 @@ the block, the window including the preceding preamble trials}; S2 == {s in S0 :
 c is evaluated by an independent run-length / count / pin evaluator (vlib/ref.py con_ok).
 """
 import copy
+import json
 import random
 
 from vlib import designs as D, observe as O, ref, gen, spec as S
 
 ID = "C26"
 RULE = ("cases = (combinator, base design, constraint c): combinator in Repeat x2-3 / Repeat with transition preamble "
-        "/ Merge(REPEAT) / Nest; c in AtMostKInARow, AtLeastKInARow, ExactlyKInARow, ExactlyK, Pin (index may be "
+        "/ Merge(REPEAT) / Nest, and (appended) POST_PREAMBLE-aligned Nest (c on the outer or on the inner block) and "
+        "Merge; c in AtMostKInARow, AtLeastKInARow, ExactlyKInARow, ExactlyK, Pin (index may be "
         "negative) on a basic or within-trial derived level. non-trivial = S0, S1, S2 all exhausted (<= CAP) and "
         "S0 non-empty; distinct = case contents")
 ASSUMPTIONS = ["repetition window m of a block of T_B trials with p preamble trials = trials [m(T_B-p), m(T_B-p)+T_B)",
+               "under POST_PREAMBLE the first window of a block starts at (common preamble - the block's own preamble)",
                "the unconstrained set S0 returned by IterateSATGen is taken as the universe that c filters"]
-MINIMUMS = {"quick": {"triples_compared": 70, "boundary_sensitive": 25, "repeat": 20, "merge": 10, "nest": 10, "repeat_preamble": 5},
-            "thorough": {"triples_compared": 245, "boundary_sensitive": 87, "repeat": 70, "merge": 35, "nest": 35, "repeat_preamble": 17}}
+MINIMUMS = {"quick": {"triples_compared": 90, "boundary_sensitive": 25, "repeat": 20, "merge": 10, "nest": 10, "repeat_preamble": 5,
+                      "nest_outer_post": 6, "nest_inner_post": 6, "merge_post": 6},
+            "thorough": {"triples_compared": 315, "boundary_sensitive": 87, "repeat": 70, "merge": 35, "nest": 35, "repeat_preamble": 17,
+                         "nest_outer_post": 21, "nest_inner_post": 21, "merge_post": 21}}
 CASE_TIMEOUT = 240
 CAP = 700
 TYPES = ["AtMostKInARow", "AtMostKInARow", "AtLeastKInARow", "ExactlyKInARow", "ExactlyK", "Pin", "Pin"]
@@ -108,12 +113,79 @@ def cases(tier, seed):
         s2["block"] = mk([], [c])
         out.append({"cls": comb + "/" + ty, "comb": comb, "c": c, "TB": TB, "p": p, "T": T,
                     "spec0": s0, "spec1": s1, "spec2": s2})
+    # appended (after the third round of seeded changes): POST_PREAMBLE alignment, where the repetitions of a block
+    # start after the COMMON preamble. Design: A, Tr = transition(A) (crossed: one preamble trial), and a second
+    # crossing without preamble.
+    #   nest_outer_post : c on the outer block [A, Tr] of Nest(outer, [S]); the outer block occurs once, its window
+    #                     is the whole sequence including the sustained preamble (run-length types only: ExactlyK
+    #                     and Pin on an outer block are scaled by the inner length, and the documentation does not
+    #                     say what that means for a factor the outer block does not hold constant)
+    #   nest_inner_post : c on the inner block [S]; its repetitions are the groups after the common preamble
+    #   merge_post      : c on the block [B] of Merge([[A,Tr] block, [B] block], REPEAT, POST_PREAMBLE); its
+    #                     repetitions start after the common preamble
+    for i in range(180 if tier == "thorough" else 36):
+        rng = random.Random("c26post/%s/%d" % (seed, i))
+        comb = ["nest_outer_post", "nest_inner_post", "merge_post"][i % 3]
+        spec = {"factors": {}, "order": ["A"], "block": None}
+        spec["factors"]["A"] = basic("A", ["a0", "a1"])
+        gen.add_derived(rng, spec, "Tr", "transition", deps=["A"], else_level=False)
+        spec["factors"]["Tr"]["levels"] = spec["factors"]["Tr"]["levels"][:2]
+        for k in spec["factors"]["Tr"]["table"]:
+            a = json.loads(k)
+            spec["factors"]["Tr"]["table"][k] = 0 if a[0] == a[1] else 1
+        al = "post"
+        as_str = rng.random() < 0.3
+        if comb.startswith("nest"):
+            spec["factors"]["S"] = basic("S", ["s0", "s1"])
+            spec["order"] = ["A", "Tr", "S"]
+            L = 2
+            T = 3 * L
+            odesign = rng.choice([["A", "Tr"], ["Tr", "A"]])
+            if comb == "nest_outer_post":
+                TB, p, off = T, L, 0
+                mk = lambda inner, outerc: {"op": "nest", "outer": cross(list(odesign), ["Tr"], inner),
+                                            "inner": cross(["S"], ["S"], []), "cons": outerc, "align": al}
+                ty = rng.choice(["AtMostKInARow", "AtMostKInARow", "AtLeastKInARow", "ExactlyKInARow"])
+                c = {"type": ty, "factor": "A", "level": rng.choice(["a0", "a1"]), "k": rng.choice([1, 1, 2, 2, 3])}
+            else:
+                TB, p, off = L, 0, L
+                mk = lambda inner, outerc: {"op": "nest", "outer": cross(list(odesign), ["Tr"], []),
+                                            "inner": cross(["S"], ["S"], inner), "cons": outerc, "align": al}
+                ty = rng.choice(TYPES)
+                c = {"type": ty, "factor": "S", "level": rng.choice(["s0", "s1"])}
+                if ty == "Pin":
+                    c["index"] = rng.choice([0, 1, -1, -2])
+                else:
+                    c["k"] = rng.choice([1, 1, 2, 2])
+        else:
+            spec["factors"]["B"] = basic("B", ["b0", "b1"])
+            spec["order"] = ["A", "Tr", "B"]
+            names = ["A", "Tr", "B"]
+            T = 5
+            TB, p, off = 2, 0, 1
+            mk = lambda inner, outerc: {"op": "merge", "blocks": [cross(list(names), ["A", "Tr"], []),
+                                                                  cross(list(names), ["B"], inner)],
+                                        "cons": outerc, "mode": "repeat", "align": al, "as_str": as_str}
+            ty = rng.choice(TYPES)
+            f = rng.choice(["B", "B", "A"])
+            c = {"type": ty, "factor": f, "level": rng.choice(spec["factors"][f]["levels"])[0]}
+            if ty == "Pin":
+                c["index"] = rng.choice([0, 1, -1, -2])
+            else:
+                c["k"] = rng.choice([1, 1, 2, 2])
+        s0, s1, s2 = copy.deepcopy(spec), copy.deepcopy(spec), copy.deepcopy(spec)
+        s0["block"] = mk([], [])
+        s1["block"] = mk([c], [])
+        s2["block"] = mk([], [c])
+        out.append({"cls": comb + "/" + ty, "comb": comb, "c": c, "TB": TB, "p": p, "T": T, "off": off,
+                    "spec0": s0, "spec1": s1, "spec2": s2})
     return out
 
 
-def windows(T, TB, p):
+def windows(T, TB, p, off=0):
+    """off: first trial of the first repetition's window (POST_PREAMBLE: common preamble minus the block's own)"""
     res = []
-    st = 0
+    st = off
     while st < T - p:
         res.append((st, st + TB))
         st += TB - p
@@ -131,7 +203,7 @@ def run_case(case):
     for strat in ("IterateSATGen", "RandomGen"):
         got = []
         for k in ("spec0", "spec1", "spec2"):
-            r, err, st = D.exhaust(case[k], strat, CAP, 60 if strat == "IterateSATGen" else 15)
+            r, err, st = D.exhaust(case[k], strat, case.get("cap", CAP), 60 if strat == "IterateSATGen" else 15)
             if err or st != "ok":
                 got = None
                 counters["%s_%s" % (strat.lower(), ("raised" if err else st))] = 1
@@ -151,7 +223,7 @@ def run_case(case):
         S1 = set(O.seq_key(s) for s in r1)
         S2 = set(O.seq_key(s) for s in r2)
         want1 = set(k for k, s in S0.items()
-                    if all(b <= T and holds(case["spec0"], c, s[c["factor"]][a:b]) for a, b in windows(T, TB, p)))
+                    if all(b <= T and holds(case["spec0"], c, s[c["factor"]][a:b]) for a, b in windows(T, TB, p, case.get("off", 0))))
         want2 = set(k for k, s in S0.items() if holds(case["spec0"], c, s[c["factor"]]))
         compared = True
         if want1 != want2:
